@@ -160,9 +160,10 @@ def main():
     tier = 'quick'
     if '--tier' in sys.argv:
         tier = sys.argv[sys.argv.index('--tier') + 1]
-    quick = tier == 'quick'
+    quick = tier in ('quick', 'smoke')
+    smoke = tier == 'smoke'
     rng = rng_for('ltlatoms')
-    seeds = [0, 1, 2, 3] if quick else list(range(8))
+    seeds = [0, 1] if smoke else ([0, 1, 2, 3] if quick else list(range(8)))
 
     small = [K for n in (1, 2) for K in all_structures(n)]
     three = list(all_structures(3))
@@ -177,19 +178,21 @@ def main():
             r2nn.append(t)
 
     cases = []   # (K, tree, kind, category)
+    if smoke:
+        small = rng.sample(small, 30)
     for K in small:
-        for t in (f1 if not quick else rng.sample(f1, 30)):
+        for t in (f1 if not quick else rng.sample(f1, 8 if smoke else 30)):
             cases.append((K, t, 'ltl', 'ltl'))
-        for t in (r1 if not quick else rng.sample(r1, 30)):
+        for t in (r1 if not quick else rng.sample(r1, 8 if smoke else 30)):
             cases.append((K, t, 'rfm', 'rfm'))
-        for t in rng.sample(r2, 10 if quick else 40):
+        for t in rng.sample(r2, (4 if smoke else 10) if quick else 40):
             cases.append((K, t, 'rfm', 'rfm'))
         for t in rng.sample(r2nn, 4 if quick else 12):
             cases.append((K, t, 'rfm', 'nn'))
     n_small = len(cases)
     # the documented double-negation example: one state labelled p with a self-loop, `not p or not X not not p`
     cases.append((common.KS([[0]], [['p']]), ('or', ('not', ('ap', 'p')), ('not', ('X', ('not', ('not', ('ap', 'p')))))), 'rfm', 'nn'))
-    for K in rng.sample(three, 150 if quick else 600):
+    for K in rng.sample(three, (25 if smoke else 150) if quick else 600):
         for t in rng.sample(f1, 3):
             cases.append((K, t, 'ltl', 'ltl'))
         for t in rng.sample(f2, 3):
